@@ -466,3 +466,57 @@ def run_czar(exe, case, scratch, timeout=30.0):
                 res.append((t, [parse_shared(r) for r in out], [[x for x in r if x.startswith("POSTRUN")] for r in out]))
         stats = T.all_do(["repstat"], timeout)
     return res, stats
+
+
+# ------------------------------------------------------------------------------------------
+# OPES with multiple walkers (colvarbias_opes::update_opes gathers every walker's new kernel through replica 0)
+# ------------------------------------------------------------------------------------------
+
+def opes_conf(case):
+    return ["colvar {", "  name v0", "  distanceZ {", "    main { atomNumbers 1 }", "    ref { dummyAtom (0,0,0) }",
+            "    axis (0,0,1)", "  }", "}",
+            "opes_metad {", "  name o", "  colvars v0", "  newHillFrequency %d" % case["pace"], "  barrier 10",
+            "  gaussianSigma 0.125", "  compressionThreshold 0", "  multipleReplicas on", "  sharedFreq %d" % case["pace"], "}"]
+
+
+def parse_opes(lines):
+    for s in lines:
+        if s.startswith("OPES "):
+            t = s.split()
+            d = {"kernels": []}
+            i = 1
+            while i < len(t) and t[i] != "kernels":
+                k, v = t[i].split("=")
+                d[k] = int(v)
+                i += 1
+            i += 1
+            while i < len(t) and "=" not in t[i]:
+                h, c, sg = t[i].split(":")
+                d["kernels"].append((h, c, sg))
+                i += 1
+            return d
+    return None
+
+
+def run_opes(exe, case, scratch, timeout=30.0):
+    """all walkers step together: case["steps"][t][w] = position (dyadic).  Returns per step the dumps of all walkers."""
+    n = case["n"]
+    dirs = []
+    for i in range(n):
+        d = os.path.join(scratch, "o%d" % i)
+        shutil.rmtree(d, ignore_errors=True)
+        os.makedirs(d)
+        dirs.append(d)
+    res = []
+    with W.Team(exe, n, dirs, timeout_ms=4000) as T:
+        # restartfreq must not be 0: colvarbias_opes computes step % restart_out_freq
+        setup = ["natoms 1", "samestep 1", "temperature 300", "dt 1", "restartfreq 1000", "new", "config EOF"] + opes_conf(case) + \
+                ["EOF", "show cv 0 energy 0 bias 0 atomf 0"]
+        for r in T.all_do(setup, timeout):
+            if not any(x.startswith("CONFIG err=ok") for x in r):
+                raise W.WalkerTimeout("configuration failed: %s" % r)
+        for t, row in enumerate(case["steps"]):
+            out = T.all_do(lambda i: ["pos 1 0 0 %s" % float(row[i]).hex(), "step", "dumpopes o"], timeout)
+            res.append([parse_opes(r) for r in out])
+        stats = T.all_do(["repstat"], timeout)
+    return res, stats
